@@ -202,3 +202,37 @@ Proof.
   rewrite E0 in A1. assert (Y : s1 = enc_va false (csvals c) ++ enc32 false 0 ++ tail) by congruence. subst s1. rewrite (EV (enc32 false 0 ++ tail)) in A2. assert (Y : s2 = enc32 false 0 ++ tail) by congruence. subst s2. rewrite (E32 tail) in A3. assert (Y : s3 = tail) by congruence. subst s3. exact A4.
 Qed.
 Print Assumptions C07_source_cs_read_exact.
+
+(* the column subset from the source: sbdf_ts_read with ANY column subset (a flag per column in the caller's memory; none =
+   all columns) on the encoding of any well-formed table slice whose SELECTED columns hold no bit arrays, against a table
+   metadata struct with that many columns, followed by anything, under EVERY allocation schedule: a negative status with
+   everything the call allocated released - or OK with the stream exactly behind the table slice, whatever the subset:
+   the columns left out are skipped (sbdf_cs_skip) to exactly where reading them would have ended. *)
+From Sbdf Require Import ImpFactsTsRead ImpFactsCsRead BaseFacts Va.
+Local Open Scope Z_scope.
+Theorem C07_source_ts_read_subset : forall rf rp fo po k m (h : ImpFactsCells.heap) tmb cols tail sub, wf_ts cols -> zlen cols <= 715827882 ->
+  (forall j c, nth_error cols j = Some c -> sel sub (Z.of_nat j) = true -> nobit_cs c) ->
+  cell_get h tmb 1 = Some (VInt (zlen cols)) -> flags_in (zlen cols) sub m -> Forall byte (enc_ts false cols ++ tail) ->
+  exists f0, forall f, (f0 <= f)%nat -> exists st fin,
+    callC prog_env f prog_sbdf_ts_read [VPtr rf fo; VCell tmb 0; sv sub; VPtr rp po] m k (enc_ts false cols ++ tail) h = OReturn (VInt st) fin /\
+    ((st = SBDF_OK /\ Imp.lookup strm_var (vars fin) = Some (VBytes tail) /\ Imp.lookup "*out" (vars fin) = Some (VCell (List.length h) 0)) \/
+     (st < 0 /\ Imp.lookup "*out" (vars fin) = Some VUndef /\ exists j, Imp.lookup cells_var (vars fin) = Some (VHeap (h ++ nones j)))).
+Proof.
+  intros rf rp fo po k m h tmb cols tail sub (Hn & W) Hsm Hnb Htm Fl Hb.
+  pose proof (zlen_nonneg cols) as N0.
+  assert (ESX : enc_ts false cols ++ tail = [223; 91; 3] ++ (enc32 false (zlen cols) ++ List.concat (map (enc_cs false) cols) ++ tail)) by (unfold enc_ts; rewrite <- !app_assoc; reflexivity).
+  rewrite ESX in *. set (CT := List.concat (map (enc_cs false) cols) ++ tail) in *.
+  destruct (rspec_sec_read 3) as [E0 _].
+  destruct (rspec_int32 false (zlen cols) ltac:(unfold i32_range; lia)) as [E32 _].
+  destruct (colsf_of_encoding sub cols 0 tail W (fun j c Hj Hs => Hnb j c Hj ltac:(rewrite Z.add_0_l in Hs; exact Hs))) as (CE & CN). fold CT in CE, CN.
+  assert (Hlen : Z.to_nat (zlen cols) = List.length cols) by (unfold zlen; lia).
+  assert (NBC : forall s1 s2, sec_read ([223; 91; 3] ++ enc32 false (zlen cols) ++ CT) = Ok (3, s1) -> read_int32 false s1 = Ok (zlen cols, s2) -> colsf_nobit sub (Z.to_nat (zlen cols)) 0 s2).
+  { intros s1 s2 A R. rewrite E0 in A. assert (Y : s1 = enc32 false (zlen cols) ++ CT) by congruence. subst s1. rewrite (E32 CT) in R. assert (Y : s2 = CT) by congruence. subst s2. rewrite Hlen. exact CN. }
+  destruct (ts_read_sub_source rf rp fo po k _ m h tmb (zlen cols) sub Hb ltac:(lia) Htm Fl NBC) as (f0 & F). exists f0. intros f Hf.
+  destruct (F f Hf) as (st & fin & C & _ & _ & Out). exists st, fin. split; [exact C|].
+  destruct Out as [(E & Ho & (s1 & s2 & s' & A1 & A2 & A3 & A4) & _)|(Hng & Ho & Hj)]; [|right; split; [exact Hng|split; [exact Ho|exact Hj]]].
+  left. split; [exact E|]. split; [|exact Ho].
+  rewrite E0 in A1. assert (Y : s1 = enc32 false (zlen cols) ++ CT) by congruence. subst s1. rewrite (E32 CT) in A2. assert (Y : s2 = CT) by congruence. subst s2.
+  rewrite Hlen, CE in A3. assert (s' = tail) by congruence. subst s'. exact A4.
+Qed.
+Print Assumptions C07_source_ts_read_subset.
